@@ -409,7 +409,7 @@ func roundHalfEven(r *big.Rat) *big.Int {
 func runC07(rc *RunCtx) {
 	maxOV := int64(60)
 	if rc.Thorough() {
-		maxOV = 250
+		maxOV = 400
 	}
 	var cases []c07Case
 	emit := func(c c07Case) { cases = append(cases, c) }
